@@ -45,10 +45,13 @@ func ZZ_AUX_bmc() {
 		w.Now = zzWindowNow
 		rc.Window = *w
 	}
-	var cr recorder.Recorder
+	// as cmd/thermal-recorder/main.go wires it: a typed nil pointer when the
+	// continuous recorder is off
+	var crp *zzSink
 	if CR {
-		cr = csink
+		crp = csink
 	}
+	var cr recorder.Recorder = crp
 	mp := NewMotionProcessor(h.parse, &mc, rc, &config.Location{}, nil, msink, zzCam{1, 1, fps}, cr, ssink)
 	raw := make([]byte, 2)
 	n := 0         // accepted frames so far
